@@ -362,7 +362,9 @@ def scenarios_for(pid, tier, r):
             scns.append(mk_scenario("c08-%d" % n, c))
             n += 1
     elif pid == "C18":
-        masks = ["0000000000000000", "ffffffffffffffff", "0010000000000000", "0040000000000000"]
+        masks = ["0000000000000000", "ffffffffffffffff", "0010000000000000", "0040000000000000",
+                 # real-time signals only (34 and up), standard signals only
+                 "0000000002000000", "000000001e000000", "00000000ffffffff", "0000000000000080", "ffffffff00000000", "0042000000000000"]
         for _ in range(60 if tier == "quick" else 600):
             masks.append("".join("%02x" % r.below(256) for _ in range(8)))
         some = [c for c in cfgs if c["stdin"] != "merge"]
